@@ -552,7 +552,7 @@ func finish(res *propResult, spec *PropSpec, tier string, seed int, start time.T
 	}
 	sort.Strings(fl)
 	cov := map[string]interface{}{
-		"explanation":         spec.Explanation,
+		"explanation":         strings.TrimSpace(spec.Explanation + " " + specAdditions[spec.ID]),
 		"rule":                "each obligation is one instance of a rule of DESIGN.md §4 evaluated on the SSA/CFG/call graph of /repo's working tree; distinct = distinct obligation keys (rule/function/construct)",
 		"obligations":         nObl,
 		"discharged":          nDis,
